@@ -21,6 +21,7 @@ from numba_scfg.core.datastructures import basic_block as bb  # noqa: E402
 from numba_scfg.core.datastructures.scfg import SCFG  # noqa: E402
 
 LEVEL = "translation_validation"
+EXTRA_PROPS_FILES = ["Scfg/Props/C10Gen.lean"]
 
 
 def expected_tags(scfg, tag):
